@@ -97,6 +97,7 @@ def gen_cases(ctx):
 
 def run(ctx):
     ctx.check_props()
+    gen_fail = ctx.genlink_goarith("GoLinkC11")    # rowReduceForInverse is re-translated from gf2p16/matrix.go and proved equal to the model
     model = ctx.build_model()
     vh = ctx.build_harness()
     if ctx.replay:
@@ -125,6 +126,7 @@ def run(ctx):
             reported += 1
             ctx.violation("%s %s n=%d: %s; impl=%s model=%s" % (op, kind, n, why, i[:80], m[:80]),
                           {"cases_full": [[op, kind, n, line]], "impl": i, "model": m, "class": {"op": op, "kind": kind}})
+    ctx.report_genlink(gen_fail, "GoLinkC11")
     return ctx.finish(
         "proof",
         rule="matrices from 12 structured generators (random, identity, permutation, reversed permutation, triangular, Vandermonde, Cauchy, rank-deficient at a random stage, zero leading minors, sparse, duplicate column) for every dimension 1..40 (thorough: up to 300), all 256 2x2 matrices over {0,1,2,3}, augmented sides of width 1, 2, n, n+3, products incl. mismatched dimensions; non-trivial = dimension >= 2 and not the identity",
